@@ -110,17 +110,24 @@ fn check_pairs<C: Suite>(
     if comms.len() != k {
         return viol("C15.wrong_number_of_pairs", format!("{} nonces, {} commitments", k, comms.len()));
     }
+    // consumption is judged in BYTES, not in requests: exactly 64 per pair, whatever the granularity of the requests
     let draws = &rng.draws[first_draw..];
     rep.evaluations += 1;
-    if draws.len() != 2 * k || draws.iter().any(|d| d.1 != 32) {
-        return viol("C15.random_source_consumption", format!("expected {} requests of 32 bytes for {k} pair(s), saw {:?}", 2 * k, draws.iter().map(|d| d.1).collect::<Vec<_>>()));
+    let start = draws.first().map(|d| d.0).unwrap_or(rng.out.len());
+    let consumed: usize = draws.iter().map(|d| d.1).sum();
+    if consumed != 64 * k {
+        return viol("C15.random_source_consumption", format!("{k} pair(s) must consume exactly {} bytes (32 for each hiding and 32 for each binding nonce), consumed {consumed} in requests of {:?}", 64 * k, draws.iter().map(|d| d.1).collect::<Vec<_>>()));
     }
-    // consecutive, disjoint windows
-    for (i, d) in draws.iter().enumerate() {
-        if d.0 != draws[0].0 + 32 * i {
-            return viol("C15.random_source_consumption", format!("request {i} starts at stream offset {} (expected {})", d.0, draws[0].0 + 32 * i));
+    // requests are consecutive on the stream
+    let mut at = start;
+    for d in draws {
+        if d.0 != at {
+            return viol("C15.random_source_consumption", format!("request at stream offset {} (expected {at})", d.0));
         }
+        at += d.1;
     }
+    // window j: hiding = bytes [64j, 64j+32), binding = bytes [64j+32, 64j+64) of what the call consumed
+    let draws: Vec<(usize, usize)> = (0..2 * k).map(|i| (start + 32 * i, 32)).collect();
     let sb = share.serialize();
     let zero_b = sc_bytes::<C>(&zero::<C>());
     for j in 0..k {
